@@ -227,6 +227,10 @@ def check(prog, run):
     for caller, node, key, msg in problems:
         run.report(rm, "%s:%s:%s" % (caller.module.name, caller.qualname, key), caller.where(node), msg)
 
+    # ---- W1 pairwise wrapper comparison descends level by level
+    from .. import pairwrap
+    pairwrap.check(prog, run, "W1", ["py_gql.validation", "py_gql.schema.schema"], 2)
+
     # ---- R4 per-usage records
     r = run.rule("R4", "variable usages checked by VariablesInAllowedPositionChecker come from a container that records every "
                        "usage (appended per occurrence), not from a mapping keyed by the variable name alone", 1)
